@@ -21,8 +21,6 @@ Clauses (finding keys)
 """
 from __future__ import annotations
 
-import copy
-import pickle
 import random
 
 import optree
@@ -184,8 +182,11 @@ def transitivity(ents, bag, limit, rng):
             r = 0
             xs = x.spec
             for k, y in enumerate(g):
-                if xs == y.spec:
-                    r |= 1 << k
+                try:
+                    if xs == y.spec:
+                        r |= 1 << k
+                except Exception:   # noqa: BLE001 - already reported by the pair loop
+                    pass
             rows.append(r)
         bag.ev(len(g) * len(g))
         for i, r in enumerate(rows):
